@@ -211,12 +211,11 @@ func init() {
 		NeedObligations:  true,
 		QuickTimeout:     20,
 		Extra:            func(cc *checkCtx) []*Obligation { return cc.chanSendCheck("client") },
-		AllowUnsupported: map[string]bool{"(*client.session).destroy": true, "(*client.sessions).update": true},
 		Assumptions: []string{
 			"concurrency is modelled by the lock-invariant rule: state declared as guarded by a mutex (the Entries maps of client.Cache and client.sessions, the mutable fields of client.session) is arbitrary at every acquisition and may only be accessed with that mutex held at the needed level (proved per access); interleavings between critical sections are covered by the havoc; accesses to memory that is not declared guarded are not analysed for races",
 			"an object allocated by the function itself is initialised without its lock (taken as unpublished)",
 			"lock ordering across different mutexes (deadlock freedom) is not analysed beyond: no declared lock is acquired while already held by the same function, none is released unheld",
-			"functions using channels (session.destroy, sessions.update, the auto-renewal goroutine) are outside the subset of the symbolic executor; for them only the structural rule 'a blocking send goes to a channel field whose every creation site has capacity >= 1' is decided (kind table); that at most one value is sent per channel instance (a cancelled session leaves the table in the same critical section) is assumed",
+			"a channel send is a no-op on the modelled state (session.destroy and sessions.update are verified for their lock discipline and guarded accesses with it); select and receive, i.e. the auto-renewal goroutine, are outside the subset of the symbolic executor; for blocking only the structural rule 'a blocking send goes to a channel field whose every creation site has capacity >= 1' is decided (kind table); that at most one value is sent per channel instance (a cancelled session leaves the table in the same critical section) is assumed",
 		},
 		NotDecided: []string{
 			"data-race freedom of state that is not declared guarded (Client.settings.assumePreAuthentication and preAuthEType are written by ASExchange without a lock), deadlocks involving the renewal goroutine's cancel channel, goroutine leaks",
